@@ -41,6 +41,9 @@ func (d *Pegnetd) GradeS(ctx context.Context, block *factom.EBlock) (graderStake
 		for i := range entry.ExtIDs {
 			extids[i] = entry.ExtIDs[i]
 		}
+		if len(extids) < 2 {
+			continue // malformed entry, no staker id to check
+		}
 		// allow only top 100 stake holders submit prices
 		stakerRCD := extids[1]
 		if d.Pegnet.IsIncludedTopPEGAddress(stakerRCD) {
